@@ -42,7 +42,9 @@ constexpr auto tanh_cf(T const xx, int const depth) noexcept -> T
 template <typename T>
 constexpr auto tanh_begin(T const x) noexcept -> T
 {
-    return (x / tanh_cf(x * x, 1));
+    // the continued fraction (depth GCEM_TANH_MAX_ITER) converges only for moderate x; beyond that
+    // tanh(x) = 1 - 2 / (exp(2x) + 1), which also gives 1 for huge and infinite x
+    return (x > T(5) ? T(1) - T(2) / (exp(T(2) * x) + T(1)) : x / tanh_cf(x * x, 1));
 }
 
 template <typename T>
